@@ -5,6 +5,7 @@ from props.common import *
 from props import dwtfam, c01
 
 ID = 'C02'
+GRAD_MODES = True
 PROPS_MODULE = 'Props.C02 Props.C02Kernels'
 THEOREMS = ['C02_line_pr', 'C02_line_pr_exact', 'C02_kernel_window', 'C02_level_1d', 'C02_multilevel_1d', 'C02_circular_pr', 'C02_level_1d_per', 'C02_multilevel_1d_per', 'C02_PRcond_lazy', 'C02_level_2d', 'C02_multilevel_2d', 'C02_multilevel_2d_per', 'C02_pywt_kernels', 'C02_error_bound_Z', 'C02_haar_kernel']
 VO = ['theories/Props/C02.vo', 'theories/Props/C02Kernels.vo', 'theories/Props/C01.vo', 'theories/Props/C10.vo', 'theories/Run/RunDwt.vo', 'theories/Run/RunSpec.vo']
